@@ -10,6 +10,7 @@ type Inst struct {
 	P                        *Plan
 	Name                     string
 	Cells                    [NCells]int32
+	Far                      [MaxPages][NFar]int32
 	Globals                  [NGlobals]int32
 	Table                    [TableSize]int // function index, -1 null, -2 odd signature
 	Pages                    int
@@ -245,6 +246,16 @@ func (w *World) call(in *Inst, fn int, x int32) (res int32, fail *Fail) {
 			if in.Pages+int(a.A) <= MaxPages {
 				in.Pages += int(a.A)
 			}
+		case AFarStore:
+			if int(a.A) >= in.Pages {
+				return 0, trap(TrapOOBStore)
+			}
+			in.Far[a.A][a.B] = acc | 1
+		case AFarLoad:
+			if int(a.A) >= in.Pages {
+				return 0, trap(TrapOOBLoad)
+			}
+			acc += in.Far[a.A][a.B]
 		case ARec:
 			var n int32
 			switch a.B {
